@@ -387,7 +387,8 @@ def check_track(col, case, tmp=None):
         return
     if not check_to_dict(col, t, genome, dense, sig, case):
         return
-    for n, s in genome:
+    light = case.get("light", False)     # 3-4 chromosomes, quick tier: per-chromosome views on every 4th case only
+    for n, s in ([] if light else genome):
         got = col.guarded(lambda: np.asarray(t[n].to_array()).tolist(), sig + ":getitem-chromosome", case)
         if got is not None:
             col.check(lists_equal(got, dense[n]), sig + ":getitem-chromosome:wrong-dense", case,
@@ -398,6 +399,8 @@ def check_track(col, case, tmp=None):
         col.check(got[0] == total and got[1] == total, "track:sum:wrong", case, "got %r expected %r" % (got, total))
     check_histogram(col, t, genome, dense, "track", case)
     data = check_backconversion(col, t, genome, dense, sig, case)
+    if light:
+        return
     if data is not None and route == "get_track" and not (t.dtype == bool):
         # round trip: the bedGraph given back builds the same array again
         t2 = col.guarded(lambda: g.get_track(data), "track:roundtrip", case)
@@ -440,6 +443,10 @@ def check_track_stream(col, case, g, genome, recs, vtype, dense, sig):
     if d2 is not None:
         dense1 = {n: [x + 1 for x in dense[n]] for n, _ in genome}
         check_backconversion(col, None, genome, dense1, sig + ":add-scalar", case, is_bool=False, data=d2)
+    d3 = col.guarded(lambda: compute((g.get_track(chunks()) > 1).get_data()), sig + ":gt-scalar", case)
+    if d3 is not None:
+        dense2 = {n: [x > 1 for x in dense[n]] for n, _ in genome}
+        check_backconversion(col, None, genome, dense2, sig + ":gt-scalar", case, is_bool=True, data=d3)
 
 
 def chrom_classes(size):
@@ -499,7 +506,8 @@ def gen_tracks(tier):
         for k, lays in enumerate(itertools.product(*[chrom_classes(s) for s in sizes])):
             pat = ("int-alt", "float-rep0", "int-rep0", "float-alt")[k % 4]
             recs = records_for(names, lays, pat)
-            yield {"kind": "track", "genome": genome, "records": recs, "vtype": VALUE_PATTERNS[pat][0], "route": "get_track"}
+            yield {"kind": "track", "genome": genome, "records": recs, "vtype": VALUE_PATTERNS[pat][0], "route": "get_track",
+                   "light": bool(quick and k % 4 != 0)}
             if k % 9 == 0:
                 yield {"kind": "track", "genome": genome, "records": recs, "vtype": VALUE_PATTERNS[pat][0], "route": "stream",
                        "split": max(1, len(recs) // 2)}
